@@ -38,7 +38,7 @@ theorem C16_plain_inline (child : Option ChildFn) (ctx : Ctx) (word a : Str) (li
       .ok { st := st, out := [upper word ++ [' '] ++ strip a], sig := .normal } := by
   have hg := C16_generic_is_plain
   obtain ⟨h1, h2, h3, h4, h5, h6, h7⟩ := hg
-  simp [compileSimple, simplePre, h1, h2, h3, h4, h5, hd, listifyArgs, listifyArgs.go, ha, Arg.str, verifyTypes, typeOk,
+  simp [compileSimple, simplePre, prepareArgs, checkArgs, itemsOf, nameOf, h1, h2, h3, h4, h5, hd, listifyArgs, listifyArgs.go, ha, Arg.str, verifyTypes, typeOk,
     isListVal, verifyArgsHook, hasHook, h6, verifyEach, verifyArgHook, formatArg, multiComp, runCompile, h7, runCompileLocal,
     defaultEmit]
 
@@ -47,7 +47,7 @@ theorem C16_plain_bare (child : Option ChildFn) (ctx : Ctx) (word : Str) (line :
     compileSimple child ctx Generated.generic word line none none st =
       .ok { st := st, out := [upper word], sig := .normal } := by
   obtain ⟨h1, h2, h3, h4, h5, h6, h7⟩ := C16_generic_is_plain
-  simp [compileSimple, simplePre, h1, h2, h3, h4, h5, hd, listifyArgs, verifyTypes, verifyArgsHook, hasHook, h6, verifyEach,
+  simp [compileSimple, simplePre, prepareArgs, checkArgs, itemsOf, nameOf, h1, h2, h3, h4, h5, hd, listifyArgs, verifyTypes, verifyArgsHook, hasHook, h6, verifyEach,
     multiComp, runCompile, h7, runCompileLocal, defaultEmit]
 
 theorem C16_plain_dollar (child : Option ChildFn) (ctx : Ctx) (word a : Str) (line : Nat) (st : St) (v : Val) (s : Str)
@@ -56,7 +56,7 @@ theorem C16_plain_dollar (child : Option ChildFn) (ctx : Ctx) (word a : Str) (li
     compileSimple child ctx Generated.generic word line (some a) none st =
       .ok { st := st, out := [upper (word.drop 1) ++ [' '] ++ s], sig := .normal } := by
   obtain ⟨h1, h2, h3, h4, h5, h6, h7⟩ := C16_generic_is_plain
-  simp [compileSimple, simplePre, h1, h2, h3, h4, h5, hd, listifyArgs, listifyArgs.go, ha, Arg.str, evaluateArgs, evalIn, liftO,
+  simp [compileSimple, simplePre, prepareArgs, checkArgs, itemsOf, nameOf, h1, h2, h3, h4, h5, hd, listifyArgs, listifyArgs.go, ha, Arg.str, evaluateArgs, evalIn, liftO,
     hv, stringifyArgs, hs, verifyTypes, typeOk,
     isListVal, verifyArgsHook, hasHook, h6, verifyEach, verifyArgHook, formatArg, multiComp, runCompile, h7, runCompileLocal,
     defaultEmit]
